@@ -216,9 +216,14 @@ def partition_graph_rule(ck, rule='DT-partition-edges'):
         detail = 'add_edge reached under {}; ends map both nodes through the partition table: {}'.format(flow.show(f)[:80], ends_ok)
     ck.ob(rule, gu.loc(fn), ok, 'every fine edge between two different partitions yields (or merges into) a coarse edge between them, nothing else does: ' + detail,
           key=rule + '|partition_graph')
+    # (as one `mapping.update({node: idx for node in part})` or as a loop storing `mapping[node] = idx` for every node of the part, unconditionally)
     mp = [s for s in ast.walk(fn) if isinstance(s, ast.Expr) and call_attr(s.value) == 'update' and u(s.value.func.value) == 'mapping']
-    ck.ob(rule, gu.loc(fn), len(mp) == 1 and 'for node_idx in node_idxs' in u(mp[0]) and 'node_idx: idx' in u(mp[0]),
-          'every node of every partition is entered in the node -> partition table', key=rule + '|mapping')
+    ok_map = len(mp) == 1 and 'for node_idx in node_idxs' in u(mp[0]) and 'node_idx: idx' in u(mp[0])
+    if not mp:
+        st_ = [(s, l) for l in ast.walk(fn) if isinstance(l, ast.For) for s in l.body if isinstance(s, ast.Assign) and len(s.targets) == 1 and
+               isinstance(s.targets[0], ast.Subscript) and u(s.targets[0].value) == 'mapping' and u(s.targets[0].slice) == u(l.target)]
+        ok_map = len(st_) == 1 and u(st_[0][1].iter) == 'node_idxs' and u(st_[0][0].value) == 'idx' and len(st_[0][1].body) == 1
+    ck.ob(rule, gu.loc(fn), ok_map, 'every node of every partition is entered in the node -> partition table', key=rule + '|mapping')
 
 
 # --------------------------------------------------------------------------
